@@ -36,7 +36,7 @@ MIN_HITS = {
         'm:agnostic-window-shift': 150, 'agnostic:absent-domain-round': 20, 'agnostic:W=1': 3, 'agnostic:W=2': 3,
         'agnostic:W=3': 3, 'agnostic:dlr=1.0': 3,
         'm:apfl-coef': 100, 'm:apfl-keyset': 100, 'apfl:coef-at-boundary': 5,
-        'm:hyp-argmin': 300, 'm:hyp-oracle': 150, 'm:hyp-empty': 60, 'hyp:empty-after-update': 10, 'hyp:K=1': 2,
+        'm:hyp-argmin': 300, 'm:hyp-argmin-eval': 300, 'm:hyp-oracle': 150, 'm:hyp-empty': 60, 'hyp:empty-after-update': 10, 'hyp:K=1': 2,
         'hyp:K=4': 2, 'hyp:sopt=momentum': 2, 'hyp:sopt=adam': 2,
         'm:mime-server-bound': 100, 'm:mime-diag-bound': 200, 'm:mime-oracle': 100, 'mime:all-far-clipped-round': 60,
         'm:ignore-ignored': 100, 'm:ignore-trained': 100, 'm:ignore-oracle': 100,
@@ -45,8 +45,8 @@ MIN_HITS = {
         'm:agnostic-simplex': 1500, 'm:agnostic-window-length': 1500, 'm:agnostic-window-last': 1500,
         'm:agnostic-window-shift': 1500, 'agnostic:absent-domain-round': 200, 'agnostic:W=1': 40, 'agnostic:W=2': 40,
         'agnostic:W=3': 40, 'agnostic:dlr=1.0': 40,
-        'm:apfl-coef': 1000, 'm:apfl-keyset': 1000, 'apfl:coef-at-boundary': 50,
-        'm:hyp-argmin': 3000, 'm:hyp-oracle': 1500, 'm:hyp-empty': 600, 'hyp:empty-after-update': 100, 'hyp:K=1': 20,
+        'm:apfl-coef': 1000, 'm:apfl-keyset': 800, 'apfl:coef-at-boundary': 50,
+        'm:hyp-argmin': 3000, 'm:hyp-argmin-eval': 3000, 'm:hyp-oracle': 1500, 'm:hyp-empty': 600, 'hyp:empty-after-update': 100, 'hyp:K=1': 20,
         'hyp:K=4': 20, 'hyp:sopt=momentum': 20, 'hyp:sopt=adam': 20,
         'm:mime-server-bound': 1000, 'm:mime-diag-bound': 2000, 'm:mime-oracle': 1000, 'mime:all-far-clipped-round': 600,
         'm:ignore-ignored': 2000, 'm:ignore-trained': 2000, 'm:ignore-oracle': 2000,
@@ -450,6 +450,8 @@ def run_hyp(ctx, fedjax, jax, jnp, cfg, h, cache):
       if (not toy.all_finite(o64[k].params) or gap > 1e-2 * scale or
           min(o64[k].copt.min_abs_g, o64[k].sopt.min_abs_g) < 1e-4):
         discarded = True
+        ctx.klass('hyp:discard-reason=' + ('oracle-gap' if gap > 1e-2 * scale else 'adam-client-grad<1e-4' if
+                                           o64[k].copt.min_abs_g < 1e-4 else 'adam-server-delta<1e-4'))
         break
       tol = 3e-5 * scale * np.sqrt(steps[k] + 1.0) + 50 * gap
       diff = toy.max_abs_diff(got, o64[k].params)
@@ -738,7 +740,7 @@ def run(ctx):
   ns = ctx.nshards
 
   # ---- (a) agnostic
-  reps, blocks = (5, 3) if q else (12, 4)
+  reps, blocks = (5, 5) if q else (16, 10)
   cfgs = agnostic_configs()
 
   def build_agnostic(cfg):
@@ -760,7 +762,7 @@ def run(ctx):
     run_agnostic(ctx, fedjax, jax, jnp, cfg, gen_agnostic(rng, cfg[0]), cache)
 
   # ---- (b) apfl
-  reps, blocks = (4, 2) if q else (8, 4)
+  reps, blocks = (4, 3) if q else (10, 8)
   cfgs = apfl_configs()
 
   def build_apfl(cfg):
@@ -775,7 +777,7 @@ def run(ctx):
     run_apfl(ctx, fedjax, jax, jnp, cfg, gen_population(rng, kmax=3), cache)
 
   # ---- (c) hyp cluster
-  reps, blocks = (6, 3) if q else (16, 3)
+  reps, blocks = (6, 4) if q else (20, 8)
   cfgs = hyp_configs()
 
   def build_hyp(cfg):
@@ -794,7 +796,7 @@ def run(ctx):
     run_hyp(ctx, fedjax, jax, jnp, cfg, h, cache)
 
   # ---- (d) mime lite
-  reps, blocks = (4, 3) if q else (10, 4)
+  reps, blocks = (4, 5) if q else (12, 10)
   cfgs = mime_configs()
 
   def build_mime(cfg):
@@ -810,7 +812,7 @@ def run(ctx):
 
   # ---- (e) ignore_grads_haiku
   cfgs = ignore_configs(not q)
-  reps = 3 if q else 12
+  reps = 3 if q else 24
   blocks = -(-len(cfgs) // ns)
 
   def build_ignore(cfg):
